@@ -6,4 +6,6 @@ use sut::{real_cfg, toy_cfg};
 pub fn add(v: &mut Vec<sut::Cfg>) {
     toy_cfg!(v, U16, U256, "w", add_ctr32, add_ctr64, add_ctr128, add_belt);
     toy_cfg!(v, U4, U512, "w", add_ctr32);
+    // width x block size beyond 4 KiB
+    toy_cfg!(v, U32, U256, "w", add_ctr32, add_ctr64, add_ctr128);
 }
